@@ -10,6 +10,35 @@ E2 = "xh (CrossHair 0.0.110 + z3 over nunavut's own Python)"
 E1 = "llsym (own bounded symbolic executor for clang-14 LLVM IR, z3 bit-vectors/FP)"
 
 CHECKS = {
+    "C08": dict(
+        engine=E2, category="other", design_ref="DESIGN.md section 5 C08",
+        technique="CrossHair/z3 symbolic execution of the real CLI dispatch (all mode/support flags symbolic) against generator contract stubs, "
+                  "plus real generator entry points with symbolic is_dryrun on an in-memory FS; stub contract co-simulated with real nnvg",
+        text="For every accepted valuation of generate_support x omit_serialization_support x generate_namespace_types x no_overwrite the set "
+             "printed by list-outputs equals the set a real run creates, and list-outputs/list-inputs/dry-run only ever invoke generators in "
+             "dry-run mode; the real _generate_type/_generate_header/_copy_header leave the (model) file system untouched when is_dryrun. "
+             "Flag space is finite and fully covered; generators are abstracted by their documented contract.",
+        note="Trusted: generator stubs = documented generate_all contract (validated per run by concrete co-simulation with the real nnvg on a "
+             "3-type namespace), FakeFS, CrossHair, z3. Input-listing completeness, custom template dirs and lookup namespaces are not decided."),
+    "C12": dict(
+        engine=E2, category="other", design_ref="DESIGN.md section 5 C12",
+        technique="inductive step: CrossHair/z3 over the real overwrite/generate/copy code from an arbitrary symbolic pre-state "
+                  "(existence, mode bits, requested mode, overwrite flag, processors) on a POSIX file-system model",
+        text="One generation step from an arbitrary directory pre-state (target absent or present with any of the stated mode values, foreign "
+             "read-only sibling) with arbitrary file_mode/allow_overwrite: overwrite allowed => content equals a run into an empty directory "
+             "and mode == file_mode (also over read-only files); disallowed and present => PermissionError and content+mode untouched; foreign "
+             "files untouched. Because the pre-state is arbitrary the step covers run histories of any length.",
+        note="Trusted: FakeFS POSIX owner model (non-root, umask 022), CrossHair, z3. Quick tier: 32 mode patterns; thorough: all 512. "
+             "External-program post-processor and root user outside."),
+    "C13": dict(
+        engine=E2, category="other", design_ref="DESIGN.md section 5 C13",
+        technique="differential symbolic execution (CrossHair/z3) of deep_update / LanguageConfig / C++ option validation against a reference "
+                  "merge over immutable snapshots; symbolic document shapes and leaf values; aliasing via before/after snapshots",
+        text="For <=3 source documents over 1 key (thorough: 2 keys x 2 docs), depth <=3, every mix of explicit/default/map values and "
+             "unbounded leaf ints: merged result equals the documented precedence; sources unmodified after merging and after a further merge "
+             "into the result; result unaffected by later edits of sources; getters never return DefaultValue; C++ std shorthands set their "
+             "group as a unit (5 std values x 256 explicit-option subsets); a second builder never changes what an earlier context reports.",
+        note="Trusted: CrossHair, z3, the 15-line reference merge. YAML parsing, CLI plumbing, wider/deeper documents outside the bound."),
     "C15": dict(
         engine=E2, category="other", design_ref="DESIGN.md section 5 C15",
         technique="symbolic execution of the real line buffer and post-processors with CrossHair/z3 over symbolic chunk strings, "
